@@ -645,3 +645,127 @@ func genOneOnOne(r *rand.Rand, id string, size int, total int) []string {
 	g.add("tone %d %d %s %s", a, b, pay(), pay())
 	return g.lines
 }
+
+// genMultiDB: 2-4 databases of mixed types and write lists on the same instances (default shared event
+// bus); writes and replications in one database, every database on every peer observed after each step.
+func genMultiDB(r *rand.Rand, id string, size int, total int) []string {
+	g := &Gen{r: r}
+	peers := g.r.Perm(total)[:2+g.pick(total-1)]
+	kinds := []string{"kv", "log", "doc"}
+	ndb := 2 + g.pick(3)
+	dbKind := make([]string, ndb)
+	dbPeers := make([][]int, ndb)
+	for k := 0; k < ndb; k++ {
+		dbKind[k] = kinds[g.pick(3)]
+		// every database is opened on at least the first two peers
+		n := 2 + g.pick(len(peers)-1)
+		dbPeers[k] = peers[:n]
+	}
+	g.add("scn %s kind=%s acl=%s peers=%s events=1", id, dbKind[0], joinInts(dbPeers[0]), joinInts(dbPeers[0]))
+	for k := 1; k < ndb; k++ {
+		acl := joinInts(dbPeers[k])
+		if g.pick(3) == 0 {
+			acl = "*"
+		}
+		g.add("opendb kind=%s acl=%s peers=%s", dbKind[k], acl, joinInts(dbPeers[k]))
+	}
+	obsEverything := func() {
+		g.add("pause 3")
+		for k := 0; k < ndb; k++ {
+			for _, p := range dbPeers[k] {
+				g.add("obsdb %d %d", p, k)
+			}
+		}
+	}
+	obsEverything()
+	steps := 3 + g.pick(size)
+	for i := 0; i < steps; i++ {
+		k := g.pick(ndb)
+		g.add("usedb %d", k)
+		p := dbPeers[k][g.pick(len(dbPeers[k]))]
+		if g.pick(100) < 60 {
+			switch dbKind[k] {
+			case "kv":
+				g.add("put %d %s %s", p, hx([]byte("k")), hx(g.value()))
+			case "log":
+				g.add("add %d %s", p, hx(g.value()))
+			default:
+				g.add("docput %d %s %s", p, hx([]byte("d")), hx([]byte(fmt.Sprintf("v%d", g.pick(50)))))
+			}
+		} else {
+			q := dbPeers[k][g.pick(len(dbPeers[k]))]
+			if q != p {
+				if g.pick(2) == 0 {
+					g.add("sync %d %d", p, q)
+				} else {
+					g.add("pubdeliver %d %d %d", p, q, g.pick(20))
+				}
+			}
+		}
+		obsEverything()
+	}
+	return g.lines
+}
+
+// genCancel: replication requests cancelled or failing at every point (before they start, while a
+// worker is about to wait for a slot, in the middle of a fetch, between fetch and join, block
+// unavailable), in any number and mix, followed — once they have returned — by an uncancelled request
+// for the same or newer heads.
+func genCancel(r *rand.Rand, id string, size int, total int) []string {
+	g := &Gen{r: r}
+	perm := g.r.Perm(total)
+	src, dst := perm[0], perm[1]
+	g.add("scn %s kind=log acl=%d,%d peers=%d,%d", id, src, dst, src, dst)
+	n := 2 + g.pick(size)
+	for i := 0; i < n; i++ {
+		g.add("add %d %s", src, hx(g.value()))
+	}
+	nreq := 1 + g.pick(3)
+	ctxn := 0
+	for k := 0; k < nreq; k++ {
+		head := 1 + g.pick(n)       // announce some (maybe old) head of the chain
+		ctxn++
+		ctx := fmt.Sprintf("c%d", ctxn)
+		switch g.pick(6) {
+		case 0: // cancelled before it starts
+			g.add("syncasync %d heads=e%d ctx=cancelled", dst, head)
+		case 1: // cancelled just before its worker asks for a slot
+			g.add("holdhook replicator.slot.wait")
+			g.add("syncasync %d heads=e%d ctx=%s", dst, head, ctx)
+			g.add("waithook replicator.slot.wait")
+			g.add("cancel %s", ctx)
+			g.add("releasehook replicator.slot.wait")
+		case 2: // cancelled in the middle of a fetch
+			victim := 1 + g.pick(head)
+			g.add("hold %d e%d", dst, victim)
+			g.add("syncasync %d heads=e%d ctx=%s", dst, head, ctx)
+			g.add("waitget %d e%d", dst, victim)
+			g.add("cancel %s", ctx)
+			g.add("release %d e%d", dst, victim)
+		case 3: // cancelled between fetch and join
+			g.add("holdhook replicator.before.done")
+			g.add("syncasync %d heads=e%d ctx=%s", dst, head, ctx)
+			g.add("waithook replicator.before.done")
+			g.add("cancel %s", ctx)
+			g.add("releasehook replicator.before.done")
+		case 4: // a block is unavailable
+			victim := 1 + g.pick(head)
+			g.add("failget %d e%d", dst, victim)
+			g.add("syncasync %d heads=e%d", dst, head)
+			g.add("settle %d", dst)
+			g.add("okget %d e%d", dst, victim)
+		default: // an ordinary request
+			g.add("syncasync %d heads=e%d", dst, head)
+		}
+		g.add("settle %d", dst)
+		g.add("stats %d", dst)
+		g.add("obs %d", dst)
+	}
+	if g.pick(2) == 0 {
+		g.add("add %d %s", src, hx(g.value()))
+	}
+	g.add("sync %d %d", dst, src)
+	g.add("obs %d", dst)
+	g.add("final11")
+	return g.lines
+}
